@@ -28,11 +28,10 @@ Definition snap_eqb (a b : snap) : bool :=
 Definition no_leak (before after : snap) : bool := snap_eqb before after.
 
 (* Clause 2: the subshell starts from a copy of the parent's state, except for
-   the trap reset.  Descriptors: the user descriptors (< 10) that the kind
-   does not rewire are inherited unchanged, and every descriptor >= 10 the
-   child holds is close-on-exec (shell-internal). *)
+   the trap reset.  Descriptors: the user's descriptors (below 10, or above
+   without close-on-exec) that the kind does not rewire are inherited
+   unchanged, and the child holds no other such descriptor. *)
 Definition entry_ok (k : kind) (before entry : snap) : bool :=
   snap_eqb (enter_view k before)
            (mkSnap (s_vars entry) (s_pos entry) (s_funs entry) (s_aliases entry) (s_opts entry)
-                   (s_cwd entry) (s_umask entry) (s_traps entry) (user_fds k (s_fds entry)))
-  && forallb (fun e => N.ltb (fst e) 10 || snd (snd e)) (s_fds entry).
+                   (s_cwd entry) (s_umask entry) (s_traps entry) (user_fds k (s_fds entry))).
